@@ -6,6 +6,7 @@ of contours and keep its advance; relative order, cmap, generated kerning and ma
 the remaining glyphs (evaluated by the R-gpos interpreter) must be unchanged.
 """
 import copy
+import math
 import io
 import traceback
 
@@ -390,7 +391,21 @@ def tt_render(tt, name, m=(1.0, 0.0, 0.0, 1.0, 0.0, 0.0), depth=0, err=0.0):
     return out
 
 
-def match_tt(a, b, any_direction=False):
+def tie_pairs(glyphs, name):
+    """{(floor, floor + 1)} for every coordinate of the exact outline within 10^-6 of x.5."""
+    from fractions import Fraction
+    import math
+    ties = set()
+    for start, segs in R.ref_cycles(R.resolve(glyphs, name), keep_quadratic=True):
+        for p in ([start] if start is not None else []) + [q for sg in segs for q in sg[1:]]:
+            for v in p[:2]:
+                v = Fraction(v)
+                if abs((v - math.floor(v)) - Fraction(1, 2)) < Fraction(1, 10 ** 6):
+                    ties.add((math.floor(v), math.floor(v) + 1))
+    return ties
+
+
+def match_tt(a, b, any_direction=False, ties=()):
     """Greedy multiset matching of contours with tolerance; returns None if ok else a reason.
     any_direction: the source glyph has a mirrored component somewhere below it - a TrueType
     composite does not reverse such contours (nor does fontTools when it has to decompose a
@@ -407,9 +422,14 @@ def match_tt(a, b, any_direction=False):
             n = len(pa)
             for seq in ([pb] + ([list(reversed(pb))] if (ma or mb or any_direction) else [])):
                 for k in range(n):
+                    def close(u, v):
+                        # two roundings of one exact value on a rounding boundary may be 1 apart
+                        return abs(u - v) <= tol or (
+                            abs(u - v) <= tol + 0.25 + 1e-6
+                            and (math.floor(min(u, v) + 1e-9), math.floor(min(u, v) + 1e-9) + 1) in ties)
                     if all(pa[i][2] == seq[(i + k) % n][2] and
-                           abs(pa[i][0] - seq[(i + k) % n][0]) <= tol and
-                           abs(pa[i][1] - seq[(i + k) % n][1]) <= tol for i in range(n)):
+                           close(pa[i][0], seq[(i + k) % n][0]) and
+                           close(pa[i][1], seq[(i + k) % n][1]) for i in range(n)):
                         ok = True
                         break
                 if ok:
@@ -674,12 +694,28 @@ def run(case):
                                for m_ in [n] + sorted(refs[n]) if m_ in glyphs
                                for c in glyphs[m_]["components"])
                 why = match_tt(tt_render(t0, n), tt_render(t1, n), any_direction=mirrored)
+                if why and case["stratum"] in ("static", "interpolatable", "variable"):
+                    try:
+                        # (the second font of the interpolatable stratum is the second master)
+                        gsrc = glyphs
+                        if case["stratum"] == "interpolatable" and fi == 1:
+                            gsrc = {g["name"]: g for g in second_master(spec)["glyphs"]}
+                        tp = tie_pairs(gsrc, n)
+                    except Exception:  # noqa: BLE001
+                        tp = set()
+                    if tp and match_tt(tt_render(t0, n), tt_render(t1, n),
+                                       any_direction=mirrored, ties=tp) is None:
+                        bump("ttf_equal_up_to_half_ties")
+                        why = None
                 if why:
                     violations.append({"mech": "ttf_rendering_changed", "detail": {
                         "glyph": n, "font": fi, "why": why}})
             else:
                 a, b = otf_render(t0, n), otf_render(t1, n)
-                if a != b and tie_equal(glyphs, n, a, b):
+                gsrc = glyphs
+                if case["stratum"] == "interpolatable" and fi == 1:
+                    gsrc = {g["name"]: g for g in second_master(spec)["glyphs"]}
+                if a != b and tie_equal(gsrc, n, a, b):
                     # (the two compiles reach the same outline through different float
                     # operations - inlining a reference changes the order of the matrix
                     # products: a coordinate within 10^-6 of x.5 may round either way, DESIGN 4.2)
